@@ -33,7 +33,8 @@ def polled_type(out, ai: int):
     a = out["actions"][ai]
     if a[0] in ("D", "X"):
         return out["results"][ai].get("polled")
-    return {"R": "<recovery>", "C": "<cancel request>", "B": "<submit>", "S": "<signal request>"}.get(a[0])
+    return {"R": "<recovery>", "C": "<cancel request>", "B": "<submit>", "S": "<signal request>", "P": "<pause request>",
+            "U": "<unpause request>", "T": "<restart request>"}.get(a[0])
 
 
 def ref_of(out, ent):
@@ -60,9 +61,12 @@ def m_c06(out) -> list[Violation]:
         if mt in ("JumpToStage", "RestartStage"):
             continue      # the explicit re-arm exception of the property
         who = ref_of(out, row["ent"]) if row["kind"] == "stage" else (task_of(out, row["ent"]) if row["kind"] == "task" else "workflow")
+        sig = f"illegal:{row['kind']}:{row['old']}->{row['new']}:{mt}"
+        if mt == "<pause request>" and row["kind"] == "workflow" and row["new"] == "PAUSED":
+            sig = "illegal:pause-of-non-running-workflow"
         vs.append(Violation(
             what=f"durable status change {row['kind']} {who}: {row['old']} -> {row['new']} is not in the transition table (while handling {mt})",
-            signature=f"illegal:{row['kind']}:{row['old']}->{row['new']}:{mt}",
+            signature=sig,
             replay=_replay(out, {"audit_row": row, "action_index": ai})))
     return vs
 
